@@ -70,7 +70,7 @@ func newAlgoSUT(r *rng, algo, wrap string) *algoSUT {
 	case "aimd":
 		c.Initial = r.between(1, 40)
 		c.Inc = r.between(1, 3)
-		b := [][2]int{{1, 2}, {3, 4}, {7, 8}, {15, 16}, {1, 1}, {9, 10}}[r.intn(6)]
+		b := [][2]int{{1, 2}, {3, 4}, {7, 8}, {15, 16}, {1, 1}, {9, 10}, {1, 4}, {1, 8}, {1, 10}}[r.intn(9)] // (0, 1], below one half too
 		c.BNum, c.BDen = b[0], b[1]
 		s.inner = limit.NewAIMDLimit(c.Name, c.Initial, float64(c.BNum)/float64(c.BDen), c.Inc, s.reg)
 	case "vegas":
@@ -197,6 +197,16 @@ func (s *algoSUT) sample(start, rtt int64, inflight int, drop bool) J {
 	}
 	s.reg.takeSamples()
 	before := s.probeState()
+	// app-limited as the property defines it: strictly below half of the (un-truncated) estimate the algorithm holds
+	applim := false
+	switch {
+	case s.vegas != nil:
+		applim = float64(inflight) < s.vegas.VerifEstimate()/2
+	case s.grad != nil:
+		applim = float64(inflight) < s.grad.VerifEstimate()/2
+	case s.grad2 != nil:
+		applim = float64(inflight) < s.grad2.VerifEstimate()/2
+	}
 	panicked := ""
 	func() {
 		defer func() {
@@ -250,7 +260,7 @@ func (s *algoSUT) sample(start, rtt int64, inflight int, drop bool) J {
 		cls, e = "out-of-range", 0
 	}
 	return J{"est": e, "class": cls, "panic": panicked != "", "panicmsg": panicked, "base": chunks(b), "baseset": set, "probe": probe,
-		"notes": notes, "metrics": m}
+		"notes": notes, "metrics": m, "applim": applim}
 }
 
 func pickRTT(r *rng, base int64) int64 {
@@ -998,7 +1008,26 @@ func TestSettableRandom(t *testing.T) {
 	for rep := 0; rep < envInt("VERIF_RACES", 20000); rep++ {
 		st := limit.NewSettableLimit("race", 1, core.EmptyMetricRegistryInstance)
 		last := -1
-		st.NotifyOnChange(func(v int) { last = v }) // runs under the limit's own mutex
+		// every third burst goes through the traced wrapper, with a goroutine polling the wrapper's estimate meanwhile
+		var outer core.Limit = st
+		stopPoll := make(chan struct{})
+		var pollDone sync.WaitGroup
+		if rep%3 == 2 {
+			outer = limit.NewTracedLimit(st, limit.NoopLimitLogger{})
+			pollDone.Add(1)
+			go func() {
+				defer pollDone.Done()
+				for {
+					select {
+					case <-stopPoll:
+						return
+					default:
+						outer.EstimatedLimit()
+					}
+				}
+			}()
+		}
+		outer.NotifyOnChange(func(v int) { last = v }) // runs under the limit's own mutex
 		var wg sync.WaitGroup
 		start := make(chan struct{})
 		g := 4 + rep%13
@@ -1012,12 +1041,14 @@ func TestSettableRandom(t *testing.T) {
 		}
 		close(start)
 		wg.Wait()
+		close(stopPoll)
+		pollDone.Wait()
 		races++
-		if last != st.EstimatedLimit() {
+		if last != outer.EstimatedLimit() {
 			mismatches++
 		}
-		if last != st.EstimatedLimit() || rep%500 == 0 { // every mismatch and a sample of the rest go to the contract
-			w.write(J{"ev": "Concurrent", "trace": n + rep, "i": 0, "algo": "settable", "last": last, "est": st.EstimatedLimit(), "delivered": []int{last}})
+		if last != outer.EstimatedLimit() || rep%500 == 0 { // every mismatch and a sample of the rest go to the contract
+			w.write(J{"ev": "Concurrent", "trace": n + rep, "i": 0, "algo": "settable", "last": last, "est": outer.EstimatedLimit(), "delivered": []int{last}, "traced": rep%3 == 2})
 		}
 	}
 	writeJSON(t, filepath.Join(outDir(t), "settable.json"), J{"sequences": n, "sets": sets, "set_races": races, "last_delivered_differs_from_estimate": mismatches})
